@@ -2196,10 +2196,22 @@ struct wfit_case_t
     std::vector<int>    pools;    // codes 0,1,2 = 1,2,16 threads; the first one (serial) is the reference
     int                 reps{3};
     std::vector<int>    delays;
+    std::vector<int>    missing; // cells (sample * #input features + feature, continuous features first) without a value
 
     template <class A>
     void io(A& a)
     {
+        if constexpr (std::is_same_v<A, verif::reader_t>)
+        {
+            if (a.has("missing")) // absent in replay files written before missing values were generated
+            {
+                a("missing", missing);
+            }
+        }
+        else
+        {
+            a("missing", missing);
+        }
         a("samples", samples);
         a("features", features);
         a("inputs", inputs);
@@ -2237,7 +2249,10 @@ rc::Gen<wfit_case_t> gen_wfit_case()
                                rc::gen::container<std::vector<int>>(static_cast<size_t>(n * std::max(1, cats)), gen::range<int>(0, 2)), gen::range<int>(0, 1),
                                rc::gen::noShrink(gen::vec(static_cast<size_t>(n * tdim), 2.0)), gen::range<int>(0, 2),
                                rc::gen::tuple(gen::range<int>(0, 3), gen::range<int>(1, 3), gen::range<int>(1, 6)), excluded,
-                               rc::gen::element(std::vector<int>{0, 1}, std::vector<int>{0, 2}, std::vector<int>{0, 1, 2}), rc::gen::element(1, 3, 10, 20), gen_delays()),
+                               rc::gen::element(std::vector<int>{0, 1}, std::vector<int>{0, 2}, std::vector<int>{0, 1, 2}), rc::gen::element(1, 3, 10, 20), gen_delays(),
+                               rc::gen::oneOf(rc::gen::just(std::vector<int>{}),
+                                              rc::gen::mapcat(gen::range<int>(1, std::max(1, n * (f + cats) / 5)), [=](int k)
+                                                              { return rc::gen::container<std::vector<int>>(static_cast<size_t>(k), gen::range<int>(0, n * (f + cats) - 1)); }))),
                 [=](const auto& t)
                 {
                     wfit_case_t c;
@@ -2259,6 +2274,7 @@ rc::Gen<wfit_case_t> gen_wfit_case()
                     c.pools       = std::get<8>(t);
                     c.reps        = std::get<9>(t);
                     c.delays      = std::get<10>(t);
+                    c.missing     = std::get<11>(t);
                     return c;
                 });
         });
@@ -2320,6 +2336,14 @@ verdict_t check_wfit(const wfit_case_t& c, ctx_t& ctx)
             const auto own   = ((c.labels[i * static_cast<size_t>(c.cats) + static_cast<size_t>(k)] % 3) + 3) % 3;
             const auto first = ((c.labels[i * static_cast<size_t>(c.cats)] % 3) + 3) % 3;
             d.values.back()[i] = static_cast<double>((k == 1 && c.catdup != 0) ? (first + 1) % 3 : own);
+        }
+    }
+    for (const auto cell : c.missing)
+    {
+        const int nf = c.features + c.cats;
+        if (cell >= 0 && cell < c.samples * nf)
+        {
+            d.mask[static_cast<size_t>(cell % nf)][static_cast<size_t>(cell / nf)] = 0;
         }
     }
     d.target = static_cast<int>(d.types.size());
@@ -2443,6 +2467,7 @@ verdict_t check_wfit(const wfit_case_t& c, ctx_t& ctx)
     ctx.label_if(!ref.fitted, "no-feature-fits");
     ctx.label_if(ref.call.threw, "fit-throws");
     ctx.label_if(planted, "planted-order-duplicates");
+    ctx.label_if(!c.missing.empty(), "wfit-with-missing-values");
     ctx.label_if(peak >= 2, "pool-tasks-overlap");
     ctx.label_if(c.grad_style != 0, "few-valued-gradients");
     ctx.maximum("peak-pool-tasks", peak);
